@@ -4,7 +4,7 @@
    strconv.QuotedPrefix/Unquote is modelled only for quoted strings without
    backslash and without bytes >= 0x80 (otherwise the verdict is Unjudged).
    No proofs in this file. *)
-From Oras Require Import Base.Prelude.
+From Oras Require Import Base.Prelude Generated.GC16.
 
 Inductive scheme := SchUnknown | SchBasic | SchBearer.
 
@@ -19,7 +19,7 @@ Definition in_range (lo hi c : N) : bool := (lo <=? c) && (c <=? hi).
 (* tchar of RFC 7230: "!#$%&'*+-.^_`|~" DIGIT ALPHA *)
 Definition is_tchar (c : N) : bool :=
   in_range 65 90 c || in_range 97 122 c || in_range 48 57 c ||
-  existsb (fun d => d =? c) [33; 35; 36; 37; 38; 39; 42; 43; 45; 46; 94; 95; 96; 124; 126].
+  existsb (fun d => d =? c) tcharSpecials.   (* Generated.GC16: the literal in isNotTokenChar *)
 
 Fixpoint parse_token (s : str) : str * str :=
   match s with
@@ -38,8 +38,8 @@ Definition lower (c : N) : N := if in_range 65 90 c then c + 32 else c.
 Definition eq_fold (s t : str) : bool := str_eqb (map lower s) (map lower t).
 
 Definition parse_scheme (s : str) : scheme :=
-  if eq_fold s (b "basic") then SchBasic
-  else if eq_fold s (b "bearer") then SchBearer
+  if eq_fold s schemeNameBasic then SchBasic
+  else if eq_fold s schemeNameBearer then SchBearer
   else SchUnknown.
 
 (* the body of a quoted string: Some (Some (value, rest)) ok; Some None = error
